@@ -8,7 +8,7 @@ VIOLATION with exit 1 is expected.  /repo itself is never modified.  With --in-p
 Usage: tools/run_seeded.py [--tier quick|thorough] [--in-place] [ids...]"""
 import json, os, subprocess, sys, time
 ROOT = os.path.dirname(os.path.dirname(os.path.abspath(__file__)))
-WT = "/tmp/verif_seedrun"
+WT = os.environ.get("VERIF_WT", "/tmp/verif_seedrun")
 def sh(*a, **k):
     return subprocess.run(list(a), capture_output=True, text=True, **k)
 def main():
